@@ -4,6 +4,10 @@ import util.UniqueString;
 /* TLC module override for Num.tla: IEEE-754 doubles carried as decimal strings.
    Arithmetic only; every comparison that decides an outcome goes through NCmp (four-valued). */
 public class Num {
+  /* relative tolerance of the four-valued comparison; model-checking runs set -Dnum.tol=0 (exact
+     IEEE comparisons: the model is then a deterministic function of its inputs), trace validation
+     uses the default 1e-9 */
+  static final double TOL = Double.parseDouble(System.getProperty("num.tol", "1e-9"));
   static double d(Value v) {
     if (v instanceof IntValue) return ((IntValue) v).val;
     String s = ((StringValue) v).val.toString();
@@ -23,6 +27,21 @@ public class Num {
   public static Value NMax(Value a, Value b) { double x = d(a), y = d(b); return s(x >= y ? x : y); }
   public static Value NMin(Value a, Value b) { double x = d(a), y = d(b); return s(x <= y ? x : y); }
   public static Value NFloor(Value a) { return IntValue.gen((int) Math.floor(d(a))); }
+  /* sign: -1, 0, 1; 2 for NaN */
+  public static Value NSign(Value a) { double x = d(a); return IntValue.gen(Double.isNaN(x) ? 2 : (x > 0 ? 1 : (x < 0 ? -1 : 0))); }
+  /* arithmetic mean (left-to-right sum / n) and population standard deviation of a sequence */
+  public static Value NMeanSeq(Value q) {
+    TupleValue t = (TupleValue) q.toTuple(); double acc = 0.0;
+    for (int i = 0; i < t.elems.length; i++) acc += d(t.elems[i]);
+    return s(acc / t.elems.length);
+  }
+  public static Value NPopStdSeq(Value q) {
+    TupleValue t = (TupleValue) q.toTuple(); int n = t.elems.length; double acc = 0.0;
+    for (int i = 0; i < n; i++) acc += d(t.elems[i]);
+    double m = acc / n, v = 0.0;
+    for (int i = 0; i < n; i++) { double e = d(t.elems[i]) - m; v += e * e; }
+    return s(Math.sqrt(v / n));
+  }
   public static Value NIsNaN(Value a) { return Double.isNaN(d(a)) ? BoolValue.ValTrue : BoolValue.ValFalse; }
   /* -1 lt, 0 bit-identical, 1 gt, 2 ambiguous (within 1e-9 relative), 3 unordered (NaN) */
   public static Value NCmp(Value a, Value b) {
@@ -30,7 +49,7 @@ public class Num {
     if (Double.isNaN(x) || Double.isNaN(y)) return IntValue.gen(3);
     if (x == y) return IntValue.gen(0);
     if (Double.isInfinite(x) || Double.isInfinite(y)) return IntValue.gen(x < y ? -1 : 1);
-    double tol = 1e-9 * Math.max(1.0, Math.max(Math.abs(x), Math.abs(y)));
+    double tol = TOL * Math.max(1.0, Math.max(Math.abs(x), Math.abs(y)));
     if (Math.abs(x - y) <= tol) return IntValue.gen(2);
     return IntValue.gen(x < y ? -1 : 1);
   }
